@@ -64,7 +64,7 @@ func opSA(w *World, s *Step) (string, string) {
 	}
 	sa.OK = true
 	for i := 0; i < 2; i++ {
-		sa.Spy[i] = spied(sa.Obj[i], &sa.Log)
+		sa.Spy[i] = spied(sa.Obj[i], &sa.Log, i == 0)
 	}
 	w.stats.inc("sa_installed_" + mode)
 	return fmt.Sprintf("ok:%s:%x", sa.Suite, fnv1a(0, sa.Keys.SKei)), mode + ":" + sa.Suite.String()
@@ -145,7 +145,8 @@ func (w *World) keyFor(sa *SA, role string, obj string, spy bool) (*security.IKE
 			return nil, err
 		}
 		if spy {
-			return spied(o, &sa.Log), nil
+			sa.twins++
+			return spied(o, &sa.Log, sa.twins%2 == 0), nil
 		}
 		return o, nil
 	}
@@ -316,7 +317,7 @@ func opDeliver(w *World, s *Step) (string, string) {
 	if w.prop == "C18" {
 		before = clone(c.buf[:cap(c.buf)])
 	}
-	c.msg, c.res = unprotect(c.buf, c.key, c.toRole, rx.PreHdr, rx.Hdr28)
+	c.msg, c.res = unprotect(c.buf, c.key, c.toRole, rx.PreHdr, rx.Hdr28, rx.HdrOther)
 	if c.sa != nil {
 		c.res.Spy = c.sa.Log.Load()
 	}
@@ -335,7 +336,7 @@ func opDeliver(w *World, s *Step) (string, string) {
 		if k2, err := w.keyFor(c.sa, c.toRole, "twin", w.prop == "C02"); err == nil {
 			c.key = k2
 			c.sa.Log.Store(&spyLog{})
-			c.msg, c.res = unprotect(c.buf, c.key, c.toRole, rx.PreHdr, rx.Hdr28)
+			c.msg, c.res = unprotect(c.buf, c.key, c.toRole, rx.PreHdr, rx.Hdr28, rx.HdrOther)
 			c.res.Spy = c.sa.Log.Load()
 			w.stats.inc("deliver_" + c.res.class())
 			if h := deliverHooks[w.prop]; h != nil {
